@@ -71,6 +71,7 @@ public:
   int replica_id = 0, n_replicas = 1;
   std::vector<std::vector<std::string> > *mailbox = nullptr; // [dest][src] message
   std::string last_log, all_errors;
+  std::vector<std::string> ti_log;   // log lines carrying staged-TI output
   bool first_step = true;
 
   void set_cell(double lx, double ly, double lz);  // 0 = non periodic
